@@ -1,6 +1,11 @@
 (* C06 -- property theorems only.  Ring regime: every statement holds over EVERY commutative ring
    (carrier F with the operations of an `fops` record satisfying ring_theory; instances: Z, R),
-   for every order / shape / rank / weights / factors, with no size bound. *)
+   for every order / shape / rank / weights / factors, with no size bound.
+   Layout: (1) identities (shortcut = residual from scratch: CP, HOOI, PARAFAC2, tensor ring, masks); (2) loop skeletons (which iterate a
+   value belongs to: CP state machine, PARAFAC2 with line search, one-value-per-iteration loops) with refutations of the orderings used
+   before the repairs; (3) values over the reals (sqrt / abs / division) and the normalisations (cp_normalize, tucker_normalize: transcribed,
+   and as executed models with a validated tape of column norms); (4) round 5: error_calc on data with its own branch selection, EVERY
+   entry of the returned lists, loop x algebra for HOOI / tensor ring / PARAFAC2 / non-negative Tucker; (5) non-vacuity Examples. *)
 From Coq Require Import List Arith ZArith Reals Bool Ring Lia Lra.
 From TLV Require Import Base.Shape Base.PyList Base.Tensor Base.BigSum Base.Ops Model.Errors Model.ErrorsR
      Proofs.ErrorsProofs Proofs.ErrorsSkeleton Proofs.ErrorsSkeletonCP Proofs.ErrorsP2 Proofs.ErrorsTR Proofs.ErrorsReal Proofs.ErrorsLoops Proofs.ErrorsNormalizeR.
